@@ -50,10 +50,19 @@ def run(tier, seed):
         PID, LEVEL, tier, seed, THEMES,
         quick_num=24, thorough_num=250,
         assumptions=kc.COMMON_ASSUMPTIONS, rule=RULE, needed_events=NEEDED,
-        mc_cfgs=(['MC_Krill_q_roll.cfg', 'MC_Krill_q_taroll.cfg'] if tier == "quick" else ['MC_Krill_q_roll.cfg', 'MC_Krill_q_taroll.cfg', 'MC_Krill_q_multi.cfg', 'MC_Krill_roll.cfg']),
+        mc_cfgs=(['MC_Krill_q_roll.cfg', 'MC_Krill_q_taroll.cfg',
+                  # "always completes" as temporal properties
+                  'MC_Krill_live_q_roll.cfg', 'MC_Krill_live_sanity.cfg']
+                 if tier == "quick" else
+                 ['MC_Krill_q_roll.cfg', 'MC_Krill_q_taroll.cfg',
+                  'MC_Krill_q_multi.cfg', 'MC_Krill_roll.cfg',
+                  'MC_Krill_live_q_roll.cfg', 'MC_Krill_live_sanity.cfg',
+                  'MC_Krill_live_roll5.cfg']),
         directed=(DIRECTED + kc.MULTI_DIRECTED[1:]
                   + kc.clause("roll-interleaved", "roll-parent-and-child",
-                              "roll-new-key-covers-more")
+                              "roll-new-key-covers-more",
+                              "roll-new-key-covers-less",
+                              "roll-activate-with-open-requests")
                   + kc.TA_DIRECTED),
         theme_nums={"multi": (8, 80), "mix": (6, 60), "taroll": (8, 80)})
 
